@@ -9,11 +9,16 @@ use crate::util::*;
 use hcobs::{Chunk, StreamChunker, StreamReader};
 use std::io::Read;
 
-struct Sched<'a> {
+pub(crate) struct Sched<'a> {
     stream: &'a [u8],
     off: usize,
     sched: Vec<&'a str>,
     pos: usize,
+}
+impl<'a> Sched<'a> {
+    pub(crate) fn new(stream: &'a [u8], sched: Vec<&'a str>) -> Self {
+        Sched { stream, off: 0, sched, pos: 0 }
+    }
 }
 impl<'a> Read for Sched<'a> {
     fn read(&mut self, dst: &mut [u8]) -> std::io::Result<usize> {
